@@ -83,6 +83,8 @@ var c01S struct {
 	local       *c01Conn
 	dialAddr    string
 	headerWrite int
+	// the announced source address is text the resolver does not accept
+	srcUnresolvable bool
 }
 
 // a client plugin that keeps the connection after Handle returns (as the http-server based plugins do)
@@ -126,9 +128,16 @@ func c01StubJoin(a, b io.ReadWriteCloser) (int64, int64, []error) {
 }
 func c01StubHeaderWriteTo(h *pp.Header, w io.Writer) (int64, error) {
 	c01S.headerWrite++
+	// the library dereferences both addresses: a nil (also a typed nil) address is a crash of frpc
+	src, okS := h.SourceAddr.(*net.TCPAddr)
+	dst, okD := h.DestinationAddr.(*net.TCPAddr)
+	zzverif.Assert(okS && src != nil && okD && dst != nil, "C16.client.proxy-protocol-header-never-written-with-a-missing-address")
 	return 0, nil
 }
 func c01StubResolveTCPAddr(network, address string) (*net.TCPAddr, error) {
+	if c01S.srcUnresolvable && len(address) > 0 && address[0] == 'n' {
+		return nil, errC01 // "no such host", "missing port": whatever text the peer put into the message
+	}
 	return &net.TCPAddr{Port: 1}, nil
 }
 
@@ -153,14 +162,18 @@ func VerifC01ClientStack() {
 	c01S.recycled, c01S.joins, c01S.joinA, c01S.joinB, c01S.local, c01S.headerWrite = 0, 0, nil, nil, nil, 0
 	work := &c01Conn{name: "work"}
 	m := &msg.StartWorkConn{ProxyName: "p"}
+	c01S.srcUnresolvable = false
 	if zzverif.Bool("hasSrc") {
 		m.SrcAddr, m.SrcPort = "9.9.9.9", 1234
+		if zzverif.Bool("srcIsNotAnAddress") {
+			m.SrcAddr, c01S.srcUnresolvable = "not an address", true
+		}
 	}
 	pxy.HandleTCPWorkConnection(work, m, []byte("tok"))
 
 	if plg != nil {
 		if len(plg.got) == 0 {
-			zzverif.Assert(work.closed >= 1 && cfg.Transport.UseEncryption && c01S.encFails, "C01.client.plugin-not-reached-only-on-cipher-failure-and-then-closed")
+			zzverif.Assert(work.closed >= 1 && ((cfg.Transport.UseEncryption && c01S.encFails) || c01S.srcUnresolvable), "C01.client.plugin-not-reached-only-on-cipher-failure-and-then-closed")
 			return
 		}
 		zzverif.Reach("C01.client.plugin")
@@ -204,7 +217,10 @@ func VerifC01ClientStack() {
 	}
 	if c01S.joins == 0 {
 		zzverif.Assert(work.closed >= 1, "C01.client.work-conn-closed-when-not-bridged")
-		zzverif.Assert((cfg.Transport.UseEncryption && c01S.encFails) || c01S.dialFails, "C01.client.not-bridged-only-on-failure")
+		zzverif.Assert((cfg.Transport.UseEncryption && c01S.encFails) || c01S.dialFails || c01S.srcUnresolvable, "C01.client.not-bridged-only-on-failure")
+		if c01S.srcUnresolvable {
+			zzverif.Reach("C16.client.unresolvable-address-confined-to-its-connection")
+		}
 		zzverif.Reach("C01.client.not-bridged")
 		return
 	}
